@@ -74,3 +74,9 @@ func init() { engines["IX"] = engineIX }
 func init() { engines["TA"] = engineTA }
 
 func init() { engines["ED"] = engineED }
+
+func init() { engines["RC"] = engineRC }
+
+func init() { engines["ORD"] = engineORD }
+
+func init() { engines["TB"] = engineTB }
